@@ -15,7 +15,7 @@ import (
 func init() {
 	register(&Rule{ID: "R7", Title: "announce-before-start: forked flows are started only after the FlowTrace that lists them", Min: 2, Run: ruleR7})
 	register(&Rule{ID: "R8", Title: "terminal-trace-last: nothing is sent by a token after its termination / cancellation trace", Min: 5, Run: ruleR8})
-	register(&Rule{ID: "R9", Title: "leave-then-visit: LeaveTrace, then the move, then VisitTrace; a new token's first trace after NewFlowTrace is its VisitTrace", Min: 3, Run: ruleR9})
+	register(&Rule{ID: "R9", Title: "leave-then-visit: LeaveTrace, then the move, then VisitTrace; a new token's first trace after NewFlowTrace is its VisitTrace", Min: 2, Run: ruleR9})
 	register(&Rule{ID: "R10", Title: "token-exit-trace: every exit of the token goroutine is preceded by a terminal trace", Min: 5, Run: ruleR10})
 	register(&Rule{ID: "R3d", Title: "join counter reset: a counter tested by the release condition is re-initialised in the releasing branch", Min: 1, Run: ruleR3d})
 }
@@ -296,6 +296,13 @@ func ruleR10(c *Ctx) {
 			return ok
 		}
 		for i, r := range g.ReturnPoints() {
+			// a return directly in a `case <-done-source:` clause is the cancellation exit
+			if cc := innermostCommClause(p, r.Node()); cc != nil && cc.Comm != nil && isDoneComm(p, root, cc.Comm) {
+				if _, sends := clauseSendsTerminal(in, cc); !sends {
+					c.Ok(root, r.Node(), "return "+returnContext(p, root, r.Node()), "every exit of the token goroutine is preceded by a terminal trace", "cancellation exit (return in a done-source clause): the whole instance is stopping", false)
+					continue
+				}
+			}
 			// is there a path entry -> r avoiding every terminal send?
 			found, w := g.Search(g.Entry(), true, func(pt Point, n ast.Node) Action {
 				if n == nil || isTerminal(n) {
@@ -315,6 +322,27 @@ func ruleR10(c *Ctx) {
 			c.Check(!found, root, r.Node(), desc, "every exit of the token goroutine is preceded by a terminal trace", wit)
 		}
 	}
+}
+
+func innermostCommClause(p *Prog, n ast.Node) *ast.CommClause {
+	for cur := p.Parent(n); cur != nil; cur = p.Parent(cur) {
+		switch x := cur.(type) {
+		case *ast.CommClause:
+			return x
+		case *ast.FuncLit, *ast.FuncDecl:
+			return nil
+		}
+	}
+	return nil
+}
+
+func clauseSendsTerminal(in *types.Info, cc *ast.CommClause) (string, bool) {
+	for _, st := range cc.Body {
+		if t, ok := nodeSendsTrace(in, st, terminalTraces...); ok {
+			return t, true
+		}
+	}
+	return "", false
 }
 
 // returnContext describes a return by its innermost enclosing clause (case
